@@ -286,6 +286,7 @@ func zz3Must(err error) {
 
 // HarnessC03Numbering: arithmetic obligations with a symbolic tip number.
 func HarnessC03Numbering() {
+	newRSLCache() // the process-wide entry cache must not carry entries of an earlier (native) run
 	s := zzmem.New(3)
 	empty := s.RawEmptyTree()
 	n := verif.Uint64("tipnumber")
